@@ -37,6 +37,7 @@ POOL = [
     ["set", 921, []], ["set", 922, [["int", 1]]], ["set", 923, [["str", "a"]]], ["frozenset", []], ["frozenset", [["int", 1]]],
     ["dict", 924, []], ["dict", 925, [[["int", 1], ["str", "a"]]]], ["dict", 926, [[["str", "a"], ["int", 1]]]],
     ["inst", "A", 1], ["int", 300], ["float", 0.0], ["str", "ab"],
+    ["list", 930, [["tuple", 931, [["int", 1], ["bool", True]]], ["tuple", 932, [["int", 1], ["int", 1]]]]],
 ]
 
 # enum classes as *types* are out of fragment (their generic bases through EnumMeta are not modelled); enum members stay
@@ -61,6 +62,8 @@ def gen_static(rng, depth, any_ok=False):
     r = rng.random()
     if depth <= 0 or r < 0.3:
         r2 = rng.random()
+        if r2 < 0.05:
+            return ["literalstring"]
         if r2 < 0.55:
             return ["typed", rng.choice(CLS)]
         if r2 < 0.62:
@@ -86,7 +89,7 @@ def gen_static(rng, depth, any_ok=False):
 
 
 SUBS = {"int": ["bool", "int"], "float": ["int", "bool", "float"], "complex": ["float", "int"], "object": CLS, "A": ["B", "A"],
-        "str": ["str"], "Sequence": ["list", "tuple", "Sequence"], "Iterable": ["list", "set", "Sequence", "frozenset", "tuple"],
+        "str": ["str", "LiteralString"], "Sequence": ["list", "tuple", "Sequence"], "Iterable": ["list", "set", "Sequence", "frozenset", "tuple"],
         "Collection": ["list", "set", "Sequence"], "Mapping": ["dict"]}
 LITS_OF = {"int": [["int", 1], ["bool", True], ["ie", "x"]], "str": [["str", "a"]], "float": [["float", 1.5], ["int", 1]],
            "bool": [["bool", False]], "A": [["inst", "A", 0], ["inst", "B", 0]], "B": [["inst", "B", 0]], "NoneType": [["none"]],
@@ -97,10 +100,13 @@ LITS_OF = {"int": [["int", 1], ["bool", True], ["ie", "x"]], "str": [["str", "a"
 def narrow(s, rng):
     """a value that tends to be assignable to s"""
     k = s[0]
+    if k == "literalstring":
+        return rng.choice([["typed", "str"], ["known", ["str", "a"]], ["literalstring"]])
     if k == "typed":
         r = rng.random()
         if r < 0.35 and s[1] in SUBS:
-            return ["typed", rng.choice(SUBS[s[1]])]
+            c = rng.choice(SUBS[s[1]])
+            return ["literalstring"] if c == "LiteralString" else ["typed", c]
         if r < 0.7 and s[1] in LITS_OF:
             return ["known", rng.choice(LITS_OF[s[1]])]
         if s[1] in BARE and r < 0.9:
@@ -126,7 +132,7 @@ def narrow(s, rng):
     if k == "annot":
         return narrow(s[1], rng) if rng.random() < 0.5 else ["annot", narrow(s[1], rng), s[2]]
     if k == "subclass":
-        sub = ["typed", rng.choice(SUBS.get(s[1][1], [s[1][1]]))] if s[1][0] == "typed" else s[1]
+        sub = ["typed", rng.choice([x for x in SUBS.get(s[1][1], [s[1][1]]) if x != "LiteralString"])] if s[1][0] == "typed" else s[1]
         return ["subclass", sub, False] if rng.random() < 0.6 else ["known", ["class", rng.choice(["int", "bool", "A", "B", "str"])]]
     return s
 
@@ -247,7 +253,7 @@ def run(tier: str, replay: str | None = None):
                 cl = r["clauses"]
                 for fid, cond in (("C04-literal-dedup-unsound", set(bad) <= {"sound"} and cl["literal_dedup"]),
                                   ("C04-newtype-accepts-supertype", set(bad) <= {"sound"} and cl["newtype"]),
-                                  ("C04-variadic-member-not-reflexive", set(bad) <= {"refl", "union_left_if_some", "union_right_iff_all"} and cl["variadic_member"])):
+                                  ):
                     if cond and fid in findings:
                         rep.known(fid, findings[fid]["what"])
                         attributed = True
